@@ -13,11 +13,25 @@ func VerifServerLoop(srv *Server) {
 	srv.run()
 }
 
-// VerifServerQuit detaches the server from the event bus and ends its main loop.
+// VerifServerQuit ends the main loop. Stop detaches the server from the event bus first, which takes
+// the bus's write lock — and that lock can wait for ever for a closing peer that still tries to
+// deliver its delete-peer event to this loop, while the loop itself waits behind the pending writer.
+// So the loop ends first, its channels are read for ever afterwards (late events of closing peers
+// find a reader), and VerifServerUnsub detaches the server once the loop has gone.
 func VerifServerQuit(srv *Server) {
-	srv.unSub()
 	close(srv.quitCh)
+	go func() {
+		for {
+			select {
+			case <-srv.delPeerCh:
+			case <-srv.addPeerCh:
+			}
+		}
+	}()
 }
+
+// VerifServerUnsub detaches the server from the event bus.
+func VerifServerUnsub(srv *Server) { srv.unSub() }
 
 // VerifConnectedCount is the size of the server's connection table.
 func VerifConnectedCount(srv *Server) int {
